@@ -418,6 +418,9 @@ func (w *world) readAPIs(n *node) {
 
 func (w *world) afterCommitOracles(what string) {
 	c := w.c
+	// one broken invariant usually trips several oracles (a lost stake update breaks conservation and the
+	// staking tallies): evaluate the whole group so that the oracle of the property being checked reports
+	c.DeferCross = true
 	ups := w.upNodes()
 	var ref *snapshot
 	for _, n := range ups {
@@ -451,6 +454,7 @@ func (w *world) afterCommitOracles(what string) {
 		}
 	}
 	w.ledger.observe(w, ref, what)
+	c.FlushCross() // not deferred: a violation of the run's own property must unwind undisturbed
 }
 
 func (w *world) finalChecks() {
